@@ -1,1 +1,2 @@
 pub mod sbf;
+pub mod uni_eq;
